@@ -95,6 +95,12 @@ class IsoDepInitiator(object):
                     data = self.clf.exchange(data, timeout)
                     if len(data) == 0:
                         raise nfc.clf.TransmissionError
+                    while data[0] & 0b11111110 == 0b11110010:  # WTX
+                        log.debug("ISO-DEP waiting time extension")
+                        wtx_timeout = (data[1] & 0x3F) * self.fwt
+                        data = self.clf.exchange(data, wtx_timeout)
+                        if len(data) == 0:
+                            raise nfc.clf.TransmissionError
                     if data[0] == 0xA2 | (~self.pni & 1):
                         log.debug("ISO-DEP retransmit after ack")
                         data = pfb + command[offset:offset+self.miu]
@@ -117,10 +123,6 @@ class IsoDepInitiator(object):
                 except nfc.clf.ProtocolError:
                     log.error("ISO-DEP unrecoverable protocol error")
                     raise Type4TagCommandError(nfc.tag.PROTOCOL_ERROR)
-
-            while data[0] & 0b11111110 == 0b11110010:  # WTX
-                log.debug("ISO-DEP waiting time extension")
-                data = self.clf.exchange(data, (data[1] & 0x3F) * self.fwt)
 
             if data[0] & 0x01 != self.pni:
                 log.warning("ISO-DEP protocol error: block number")
